@@ -20,28 +20,28 @@ def S(engine, flavour, quick, thorough, prop=None, **kw):
     return d
 
 STAGES = {
-    "C01": [S("e_seq", "asu", 40000, 1200000)],
-    "C02": [S("e_seq", "asu", 40000, 1200000)],
-    "C05": [S("e_seq", "asu", 40000, 1200000)],
-    "C06": [S("e_seq", "asu", 40000, 1200000)],
-    "C09": [S("e_seq", "asu", 40000, 1200000), S("e_tbb", "asu", 15000, 400000)],
-    "C15": [S("e_seq", "asu", 40000, 1200000)],
-    "C03": [S("e_tbb", "asu", 18000, 800000), S("e_tbb", "tsan", 5000, 300000, gate=False)],
-    "C20": [S("e_knobreal", "asu", 3000, 30000), S("e_tbb", "asu", 12000, 200000), S("e_demo_mcb", "asu", 6000, 100000), S("e_demo_approx", "asu", 6000, 100000)],
-    "C07": [S("e_seq", "asu", 4000, 120000, leakcheck=True), S("e_comp", "asu", 4000, 120000, leakcheck=True), S("e_tbb", "asu", 2000, 80000, leakcheck=True),
-            S("e_mpi", "asu", 2000, 60000, leakcheck=True), S("e_tbb", "tsan", 1000, 40000, gate=False), S("e_mpi", "tsan", 800, 30000, gate=False),
+    "C01": [S("e_seq", "asu", 40000, 400000)],
+    "C02": [S("e_seq", "asu", 40000, 400000)],
+    "C05": [S("e_seq", "asu", 40000, 400000)],
+    "C06": [S("e_seq", "asu", 40000, 400000)],
+    "C09": [S("e_seq", "asu", 40000, 400000), S("e_tbb", "asu", 15000, 150000)],
+    "C15": [S("e_seq", "asu", 40000, 400000)],
+    "C03": [S("e_tbb", "asu", 18000, 300000), S("e_tbb", "tsan", 5000, 80000, gate=False)],
+    "C20": [S("e_knobreal", "asu", 3000, 30000), S("e_tbb", "asu", 12000, 150000), S("e_demo_mcb", "asu", 6000, 60000), S("e_demo_approx", "asu", 6000, 60000)],
+    "C07": [S("e_seq", "asu", 4000, 40000, leakcheck=True), S("e_comp", "asu", 4000, 40000, leakcheck=True), S("e_tbb", "asu", 2000, 25000, leakcheck=True),
+            S("e_mpi", "asu", 2000, 20000, leakcheck=True), S("e_tbb", "tsan", 1000, 20000, gate=False), S("e_mpi", "tsan", 800, 10000, gate=False),
             S("e_demo_mcb", "asu", 600, 15000, leakcheck=True), S("e_demo_approx", "asu", 600, 15000, leakcheck=True), S("e_demo_stats", "asu", 400, 8000, leakcheck=True), S("e_demo_mpi", "asu", 600, 15000, leakcheck=True),
             S("e_seq", "plain", 0, 400, wrapper="valgrind", gate=False, nworkers=8), S("e_comp", "plain", 0, 400, wrapper="valgrind", gate=False, nworkers=8)],
-    "C11": [S("e_demo_mcb", "asu", 10000, 200000), S("e_demo_approx", "asu", 10000, 200000), S("e_demo_stats", "asu", 4000, 60000), S("e_demo_mpi", "asu", 10000, 200000)],
-    "C04": [S("e_mpi", "asu", 20000, 600000), S("e_mpi", "tsan", 4000, 120000, gate=False)],
-    "C10": [S("e_comp", "asu", 60000, 2000000)],
-    "C12": [S("e_comp", "asu", 30000, 600000)],
-    "C13": [S("e_comp", "asu", 60000, 2000000)],
-    "C14": [S("e_comp", "asu", 24000, 500000)],
-    "C16": [S("e_comp", "asu", 50000, 1500000)],
-    "C17": [S("e_comp", "asu", 50000, 2000000)],
-    "C18": [S("e_comp", "asu", 60000, 2000000)],
-    "C08": [S("e_mpi", "asu", 8000, 200000), S("e_mpi", "plain", 0, 400, tier_arg="big", gate=False)],
+    "C11": [S("e_demo_mcb", "asu", 10000, 80000), S("e_demo_approx", "asu", 10000, 80000), S("e_demo_stats", "asu", 4000, 30000), S("e_demo_mpi", "asu", 10000, 80000)],
+    "C04": [S("e_mpi", "asu", 20000, 200000), S("e_mpi", "tsan", 4000, 40000, gate=False)],
+    "C10": [S("e_comp", "asu", 60000, 600000, crash_counts=True)],
+    "C12": [S("e_comp", "asu", 30000, 150000, crash_counts=True)],
+    "C13": [S("e_comp", "asu", 60000, 600000, crash_counts=True)],
+    "C14": [S("e_comp", "asu", 24000, 100000, crash_counts=True)],
+    "C16": [S("e_comp", "asu", 50000, 400000, crash_counts=True)],
+    "C17": [S("e_comp", "asu", 50000, 600000, crash_counts=True)],
+    "C18": [S("e_comp", "asu", 60000, 600000, crash_counts=True)],
+    "C08": [S("e_mpi", "asu", 8000, 80000), S("e_mpi", "plain", 0, 400, tier_arg="big", gate=False)],
 }
 
 # classes that belong to C07 whatever workload found them
@@ -98,6 +98,17 @@ def stage_env(stage):
     else: env["ASAN_OPTIONS"] = env["ASAN_OPTIONS"].replace("detect_leaks=1", "detect_leaks=0")
     return env
 
+def ubsan_kind(msg):
+    # class name = the leading words of the message up to the first token that carries a number or an
+    # address (those vary from run to run): "addition of unsigned offset to 0x6030.. overflowed" -> addition_of_unsigned_offset_to
+    words = []
+    for w in re.split(r"[^A-Za-z0-9]+", msg):
+        if not w: continue
+        if re.search(r"[0-9]", w): break
+        words.append(w)
+        if len(words) >= 6: break
+    return "_".join(words) or "error"
+
 def classify_log(text, rc):
     m = re.search(r"ERROR: AddressSanitizer: ([A-Za-z0-9_-]+)", text)
     if m: return "asan:" + m.group(1)
@@ -105,8 +116,8 @@ def classify_log(text, rc):
     if "ThreadSanitizer: data race" in text: return "tsan:race"
     m = re.search(r"ThreadSanitizer: ([A-Za-z0-9_ -]+)", text)
     if m: return "tsan:" + m.group(1).strip().replace(" ", "_")
-    m = re.search(r"runtime error: ([^\n]{0,60})", text)
-    if m: return "ubsan:" + re.sub(r"[^A-Za-z0-9]+", "_", m.group(1))[:40]
+    m = re.search(r"runtime error: ([^\n]{0,80})", text)
+    if m: return "ubsan:" + ubsan_kind(m.group(1))
     m = re.search(r"==\d+== (Invalid (?:read|write|free)|Conditional jump or move depends on uninitialised|Use of uninitialised value|Mismatched free|Source and destination overlap)", text)
     if m: return "valgrind:" + re.sub(r"[^A-Za-z0-9]+", "_", m.group(1))[:40]
     if "HANG" in text or rc == 78: return "hang"
@@ -170,7 +181,7 @@ def run_stage(stage, prop, tier, seed, rundir, nworkers=None):
     if n <= 0: return [], [], 0.0, 0, []
     k = nworkers or stage.get("nworkers") or NWORKERS
     k = max(1, min(k, n))
-    wall = float(os.environ.get("VERIF_WALL", "150" if tier == "quick" else "3000"))
+    wall = float(os.environ.get("VERIF_WALL", "150" if tier == "quick" else "1500"))
     t0 = time.time()
     sdir = os.path.join(rundir, "%s-%s" % (stage["engine"], stage["flavour"]))
     os.makedirs(sdir, exist_ok=True)
@@ -305,7 +316,7 @@ def check_property(prop, tier, seed, stages=None, extra_cov=None, class_filter=N
             viol.append((cls, j["_stage"], j.get("viol_file"), j))
     crash_other = 0
     for st, cls, f, idx, tail in all_crashes:
-        if prop == "C07" or cls == "hang" or (prop in RACE_PROPS and cls.startswith("tsan:")):
+        if prop == "C07" or cls == "hang" or (prop in RACE_PROPS and cls.startswith("tsan:")) or st.get("crash_counts"):
             viol.append((cls, st, f, {"i": idx, "entry": "", "classes": [cls], "_stage": st, "detail": {"log_tail": tail[-800:]}}))
         else:
             crash_other += 1
